@@ -1,2 +1,202 @@
+/* system-level ops: the real pipeline in-process, with the guarded hooks logging events */
 #include "kvh.h"
-struct kv_op kv_ops_sys[] = { {NULL, NULL} };
+#include <pthread.h>
+#include <unistd.h>
+#include <sched.h>
+#ifdef HAVE_OPENMP
+#include <omp.h>
+#endif
+#include "tldevel.h"
+#include "kalign/kalign.h"
+#include "msa_struct.h"
+#include "msa_op.h"
+#include "msa_alloc.h"
+#include "aln_struct.h"
+#include "aln_param.h"
+#include "task.h"
+#include "kalign_verif.h"
+
+int kalign_msa_to_arr(struct msa* msa, char ***aligned, int *out_aln_len);
+
+#ifdef KALIGN_VERIF
+void (*kalign_verif_cb)(int ev, const void *a, const void *b, int x, int y, int z) = NULL;
+#endif
+
+static FILE *evlog = NULL;
+static pthread_mutex_t evmx = PTHREAD_MUTEX_INITIALIZER;
+static unsigned jitter_seed = 0;
+static unsigned long evcounter = 0;
+
+static int tid(void)
+{
+#ifdef HAVE_OPENMP
+        return omp_get_thread_num();
+#else
+        return 0;
+#endif
+}
+
+static void jitter(int ev, const void *p)
+{
+        if(!jitter_seed) return;
+        unsigned long c = __atomic_add_fetch(&evcounter, 1, __ATOMIC_RELAXED);
+        unsigned h = (unsigned)(c * 2654435761u) ^ (jitter_seed * 40503u) ^ ((unsigned)ev * 97u) ^ (unsigned)((uintptr_t)p >> 4);
+        h ^= h >> 13; h *= 0x5bd1e995u; h ^= h >> 15;
+        switch(h & 7){
+        case 0: usleep(50 + (h >> 8) % 400); break;
+        case 1: case 2: sched_yield(); break;
+        case 3: for(volatile int i = 0; i < (int)((h >> 8) % 20000); i++){} break;
+        default: break;
+        }
+}
+
+static void cb(int ev, const void *a, const void *b, int x, int y, int z)
+{
+#ifdef KALIGN_VERIF
+        if(ev == KV_MERGE_BEGIN || ev == KV_FWD_BEGIN || ev == KV_BWD_BEGIN || ev == KV_MEETUP_BEGIN || ev == KV_FWD_END || ev == KV_BWD_END){
+                jitter(ev, a);
+        }
+        if(!evlog) return;
+        pthread_mutex_lock(&evmx);
+        switch(ev){
+        case KV_MERGE_BEGIN: fprintf(evlog, "MB %d %d %d %d\n", tid(), x, y, z); break;
+        case KV_MERGE_END:   fprintf(evlog, "ME %d %d %d %d\n", tid(), x, y, z); break;
+        case KV_FWD_BEGIN:   fprintf(evlog, "FB %d %p\n", tid(), a); break;
+        case KV_FWD_END:     fprintf(evlog, "FE %d %p\n", tid(), a); break;
+        case KV_BWD_BEGIN:   fprintf(evlog, "BB %d %p\n", tid(), a); break;
+        case KV_BWD_END:     fprintf(evlog, "BE %d %p\n", tid(), a); break;
+        case KV_MEETUP_BEGIN:fprintf(evlog, "UB %d %p\n", tid(), a); break;
+        case KV_MEETUP_END:  fprintf(evlog, "UE %d %p\n", tid(), a); break;
+        case KV_NODE_DONE: {
+                const struct msa *msa = a; const struct aln_mem *m = b;
+                /* ND task a b len_a len_b | path codes | members of a (sip order) rank:gaps | members of b */
+                fprintf(evlog, "ND %d %d %d %d %d %d ", tid(), x, y, z, m->len_a, m->len_b);
+                kv_print_ints(evlog, m->path + 1, m->path[0]);
+                for(int side = 0; side < 2; side++){
+                        int p = side ? z : y;
+                        fprintf(evlog, " |");
+                        for(int j = 0; j < msa->nsip[p]; j++){
+                                const struct msa_seq *s = msa->sequences[msa->sip[p][j]];
+                                fprintf(evlog, " %d:", s->rank);
+                                kv_print_ints(evlog, s->gaps, s->len + 1);
+                        }
+                }
+                fputc('\n', evlog);
+                break;
+        }
+        case KV_CANON: {
+                const struct msa *msa = a;
+                fprintf(evlog, "CANON");
+                for(int i = 0; i < msa->numseq; i++) fprintf(evlog, " %d", msa->sequences[i]->rank);
+                fputc('\n', evlog);
+                break;
+        }
+        case KV_TASKS: {
+                const struct aln_tasks *t = b;
+                fprintf(evlog, "TASKS");
+                for(int i = 0; i < t->n_tasks; i++) fprintf(evlog, " %d,%d,%d", t->list[i]->a, t->list[i]->b, t->list[i]->c);
+                fputc('\n', evlog);
+                break;
+        }
+        case KV_PARAM: {
+                const struct aln_param *ap = b;
+                union { float f; uint32_t u; } g, e, t;
+                g.f = ap->gpo; e.f = ap->gpe; t.f = ap->tgpe;
+                uint32_t h = 2166136261u;
+                for(int i = 0; i < 23; i++) for(int j = 0; j < 23; j++){ union { float f; uint32_t u; } v; v.f = ap->subm[i][j]; h = (h ^ v.u) * 16777619u; }
+                fprintf(evlog, "PARAM %d %08x %08x %08x %08x\n", x, g.u, e.u, t.u, h);
+                break;
+        }
+        default: break;
+        }
+        pthread_mutex_unlock(&evmx);
+#else
+        (void)ev; (void)a; (void)b; (void)x; (void)y; (void)z;
+#endif
+}
+
+static void hooks_on(const char *logpath, unsigned jseed)
+{
+        jitter_seed = jseed;
+        evcounter = 0;
+        evlog = NULL;
+        if(logpath && strcmp(logpath, "-") != 0){ evlog = fopen(logpath, "w"); }
+#ifdef KALIGN_VERIF
+        kalign_verif_cb = (evlog || jseed) ? cb : NULL;
+#endif
+}
+static void hooks_off(void)
+{
+#ifdef KALIGN_VERIF
+        kalign_verif_cb = NULL;
+#endif
+        if(evlog){ fclose(evlog); evlog = NULL; }
+}
+
+static float parse_pen(const char *s){ return strtof(s, NULL); }
+
+/* run <outfile> <format> <type> <gpo> <gpe> <tgpe> <nthreads> <evlog|-> <jitter> <infile>...
+   = kalign_read_input (each file) + kalign_run + kalign_write_msa; prints rc of each stage */
+static int op_run(int argc, char **argv, FILE *out)
+{
+        if(argc < 10) return 1;
+        const char *outfile = argv[0], *fmt = argv[1];
+        int type = atoi(argv[2]);
+        float gpo = parse_pen(argv[3]), gpe = parse_pen(argv[4]), tgpe = parse_pen(argv[5]);
+        int nthreads = atoi(argv[6]);
+        struct msa *msa = NULL;
+        int rc_read = OK, rc_run = FAIL, rc_write = FAIL;
+        for(int i = 9; i < argc; i++){
+                if(kalign_read_input(argv[i], &msa, 1) != OK){ rc_read = FAIL; break; }
+        }
+        int biotype = -1, aligned_in = -1, nseq = -1;
+        if(rc_read == OK && msa){
+                biotype = msa->biotype; aligned_in = msa->aligned; nseq = msa->numseq;
+                hooks_on(argv[7], (unsigned)strtoul(argv[8], NULL, 10));
+                rc_run = kalign_run(msa, nthreads, type, gpo, gpe, tgpe);
+                hooks_off();
+                if(rc_run == OK){
+                        rc_write = kalign_write_msa(msa, (char*)outfile, (char*)fmt);
+                }
+        }
+        fprintf(out, "read=%d run=%d write=%d biotype=%d aligned_in=%d nseq=%d alnlen=%d", rc_read, rc_run, rc_write, biotype, aligned_in, nseq,
+                (msa && rc_run == OK) ? msa->alnlen : -1);
+        if(msa) kalign_free_msa(msa);
+        return 0;
+}
+
+/* kalign_arr <type> <gpo> <gpe> <tgpe> <nthreads> <evlog|-> <jitter> <seq>...   (array API) */
+static int op_kalign_arr(int argc, char **argv, FILE *out)
+{
+        if(argc < 9) return 1;
+        int type = atoi(argv[0]);
+        float gpo = parse_pen(argv[1]), gpe = parse_pen(argv[2]), tgpe = parse_pen(argv[3]);
+        int nthreads = atoi(argv[4]);
+        int n = argc - 7;
+        char **seqs = malloc(sizeof(char*) * n);
+        int *lens = malloc(sizeof(int) * n);
+        for(int i = 0; i < n; i++){
+                seqs[i] = strcmp(argv[7+i], ".") == 0 ? (char*)"" : argv[7+i];
+                lens[i] = (int)strlen(seqs[i]);
+        }
+        char **aln = NULL; int alen = 0;
+        hooks_on(argv[5], (unsigned)strtoul(argv[6], NULL, 10));
+        int rc = kalign(seqs, lens, n, nthreads, type, gpo, gpe, tgpe, &aln, &alen);
+        hooks_off();
+        fprintf(out, "rc=%d len=%d", rc, rc == OK ? alen : -1);
+        if(rc == OK && aln){
+                /* number of rows returned = number of non-empty inputs */
+                int rows = 0;
+                for(int i = 0; i < n; i++) if(lens[i] > 0) rows++;
+                for(int i = 0; i < rows; i++){ fprintf(out, " %s", alen ? aln[i] : "."); free(aln[i]); }
+                free(aln);
+        }
+        free(seqs); free(lens);
+        return 0;
+}
+
+struct kv_op kv_ops_sys[] = {
+        {"run", op_run},
+        {"kalign_arr", op_kalign_arr},
+        {NULL, NULL}
+};
